@@ -8,7 +8,7 @@ from harness import family
 from harness.drivers import shampoo_props as sp
 
 OWN = re.compile(r"trace\.(raised|calls|rootAt|reached|lCnt|mCnt)$|spec\.(RaiseIffRun|NoParamChangeOnRaise|KeepPreviousOnFail)"
-                 r"|changed_on_raise|stored_root_finite|untouched_after_abort|unidentified_matrix_call")
+                 r"|changed_on_raise|root_changed_without|computed_root_not_stored|stored_root_finite|untouched_after_abort|unidentified_matrix_call")
 
 
 def owns(clause, p=None):
@@ -22,7 +22,7 @@ def G(pOf, nf, **kw):
 
 
 def make_groups(rng):
-    t = rng.choice(["m2x3", "v2x3", "m3p", "m2x2", "t3", "rect", "ign0", "s0v"])
+    t = rng.choice(["m2x3", "v2x3", "m3p", "m2x2", "t3", "rect", "ign0", "s0v", "rem1", "rem1", "t4", "big"])
     kind = rng.choice(["shampoo", "soap"])
     gs = [family.draw_group(rng, t, kind=kind, freq=rng.choice([1, 2]), tol=rng.choice([0, 1, 2]),
                             method="eigen" if kind == "shampoo" else rng.choice(["eigh", "qr"]))]
